@@ -89,46 +89,6 @@ def check_case(S, rep, relfile, cls, dim):
                key="C09.a|%s|%d|vel|%s|%s" % (cls, dim, l, diff_text(gv, wv)[:80]), sample={"grid": lab, "markers": l, "velocity_x": str(gv.comps[(0,)])[:160]})
 
 
-def typestate(S, rep):
-    """every call of compute_lag_grid_velocity_field is immediately preceded, on the same receiver, by
-    compute_lag_grid_position_field; transfer_forcing_from_grid_to_body comes after both"""
-    n = 0
-    for root, _, files in os.walk(os.path.join(S.repo, "sopht")):
-        for f in files:
-            if not f.endswith(".py"):
-                continue
-            p = os.path.join(root, f)
-            rel = os.path.relpath(p, S.repo)
-            tree = ast.parse(open(p).read())
-            for fn in [x for x in ast.walk(tree) if isinstance(x, ast.FunctionDef)]:
-                if fn.name in ("compute_lag_grid_position_field", "compute_lag_grid_velocity_field"):
-                    continue
-                for blk in [x for x in ast.walk(fn) if hasattr(x, "body") and isinstance(getattr(x, "body"), list)]:
-                    stmts = blk.body
-                    for i, st in enumerate(stmts):
-                        if isinstance(st, ast.Expr) and isinstance(st.value, ast.Call) and isinstance(st.value.func, ast.Attribute):
-                            m = st.value.func.attr
-                            recv = ast.unparse(st.value.func.value)
-                            if m == "compute_lag_grid_velocity_field":
-                                n += 1
-                                prev = stmts[i - 1] if i > 0 else None
-                                ok = (prev is not None and isinstance(prev, ast.Expr) and isinstance(prev.value, ast.Call)
-                                      and isinstance(prev.value.func, ast.Attribute) and prev.value.func.attr == "compute_lag_grid_position_field"
-                                      and ast.unparse(prev.value.func.value) == recv)
-                                rep.ob("C09.b", "%s:%s velocity after position on %s" % (rel.split("/")[-1], fn.name, recv), ok,
-                                       "marker velocities are computed without recomputing positions (arms / cached directors) first",
-                                       key="C09.b|%s|%s|%s" % (rel, fn.name, recv))
-                            if m == "transfer_forcing_from_grid_to_body":
-                                # somewhere earlier in the same function (possibly through a helper of the same object) both were called
-                                src = ast.unparse(fn)
-                                before = src[:src.index("transfer_forcing_from_grid_to_body")]
-                                ok = ("compute_lag_grid_position_field" in before and "compute_lag_grid_velocity_field" in before) or \
-                                     "compute_interaction_on_lag_grid" in before
-                                rep.ob("C09.b", "%s:%s force transfer after kinematics" % (rel.split("/")[-1], fn.name), ok,
-                                       "forces are transferred with arms that were not refreshed", key="C09.b|%s|%s|transfer" % (rel, fn.name), nontrivial=False)
-    rep.note("velocity_call_sites", n)
-
-
 def freshness(S, rep, rule):
     """def-use over the interaction's evaluation entry points: derived buffers of a grid (arms, transposed directors, element
     velocities ...) are recomputed from the body before they are read, so markers carry the CURRENT section kinematics"""
@@ -146,13 +106,13 @@ def run(S, tier, rep):
     rep.rule_text = ("the position and velocity methods of every forcing-grid class are interpreted over one generic marker / element "
                      "(pointwise tensors of polynomials in symbols, frame-tagged); positions must equal the documented closed forms and "
                      "velocities must equal v_centre + (Q^T omega) x (x_marker - X_centre) with the code's own marker positions; every "
-                     "cross product / sum / rotation must combine one frame; call sites must compute positions right before velocities")
+                     "cross product / sum / rotation must combine one frame; def-use rule: in the constructor of every grid and in every "
+                     "evaluation entry point of the interaction, a buffer derived from the body is recomputed before it is read")
     rep.explanation = ("exact polynomial identities in the components of X, V, Q, omega, radius and local offsets: all poses and velocities; "
                        "the second-order pose-advance clause follows for body-fixed markers and is not separately decided")
     rep.assumptions = rep.assumptions + ["A6 PyElastica conventions: director rows = material axes (lab -> material), omega material-frame, _node_to_element_velocity = mass-weighted mean"]
     for relfile, cls, dim in CASES:
         check_case(S, rep, relfile, cls, dim)
-    typestate(S, rep)
     freshness(S, rep, "C09.b")
     rep.require_min("C09.a", 40)
     rep.require_min("C09.b", 40)
